@@ -44,11 +44,11 @@ def cases(tier):
     for cls in U.CLASSES:
         for setup in ("noflux", "robin", "periodic"):
             # operand state: just constructed (BC dirty flags still raised), after apply_BCs(), after a solvePDE
-            for state in ("fresh", "applied", "solved"):
+            for state in ("fresh", "applied", "solved", "special"):
                 out.append({"cls": cls, "setup": setup, "part": "ops", "state": state})
                 out.append({"cls": cls, "setup": setup, "part": "eval", "state": state})
             for i in range(len(BIN)):
-                for state in (("fresh", "applied") if tier == "quick" else ("fresh", "applied", "solved")):
+                for state in (("fresh", "applied", "special") if tier == "quick" else ("fresh", "applied", "solved", "special")):
                     out.append({"cls": cls, "setup": setup, "part": "trees", "first": i, "depth": 2 if tier == "quick" else 3,
                                 "state": state})
         out.append({"cls": cls, "part": "face"})
@@ -119,6 +119,14 @@ class Ctx:
 
     def var(self, i):
         vals = U.generic_array(self.dims, tag=120 + 7 * i) / 8.0 + 0.5        # positive, distinct, O(1)
+        if self.state == "special":
+            # values that coincide exactly with the scalars / with each other / with zero, and mixed signs: results
+            # contain exact zeros (of either sign), infinities and NaNs, which must be numpy's, bit for bit
+            sp_ = [self.scalar(i), 0.0, -self.scalar(i), 1.0, -0.0, self.scalar(i + 1), 2.0 ** -1074, -1.0]
+            vals = vals.copy()
+            for k in range(vals.size):
+                if k % 2 == 0:
+                    vals.flat[k] = sp_[(k // 2 + i) % len(sp_)]
         v = pf.CellVariable(self.mesh, vals, make_bc(self.mesh, self.cls, self.setup, 3 * i))
         if self.state == "applied":
             v.apply_BCs()
@@ -131,6 +139,9 @@ class Ctx:
         return [1.5, 0.75, 2.0][i % 3]
 
     def arr(self, i):
+        if self.state == "special":      # an integer-typed ndarray on the right, zeros and negatives included
+            n = int(np.prod(self.dims))
+            return (np.arange(n, dtype=np.int64).reshape(self.dims) % 4) - 1
         return U.generic_array(self.dims, tag=140 + i) / 16.0 + 0.25
 
 
@@ -149,6 +160,20 @@ def operand(ctx, kind, i):
     return a, r, np.array(a.value), r, a
 
 
+def same_bits(got, want):
+    """Elementwise identical including the sign of zeros and the positions of NaN/inf."""
+    got = np.asarray(got)
+    want = np.asarray(want)
+    if got.shape != want.shape:
+        return False
+    g = got.astype(float)
+    w = want.astype(float)
+    if not np.array_equal(g, w, equal_nan=True):
+        return False
+    fin = ~np.isnan(w)
+    return bool(np.array_equal(np.signbit(g[fin]), np.signbit(w[fin])))
+
+
 def np_apply(name, fn, x, y):
     if name == "and":
         return np.logical_and(x, y)
@@ -157,7 +182,7 @@ def np_apply(name, fn, x, y):
     return fn(x, y)
 
 
-def check_result(ctx, res, F, seen, what, r, want, lead, operands):
+def check_result(ctx, res, F, seen, what, r, want, lead, operands, want_alt=None):
     """Common checks on a CellVariable result."""
     def add(kind, msg):
         k = "C14:%s:%s" % (kind, what.split("|")[0])
@@ -172,6 +197,9 @@ def check_result(ctx, res, F, seen, what, r, want, lead, operands):
     got = np.asarray(r.value)
     if got.shape != np.shape(want) or not np.array_equal(got.astype(float), np.asarray(want).astype(float), equal_nan=True):
         add("elementwise", "interior values differ from numpy applied to the operands' interior values")
+    elif not same_bits(got, want) and not (want_alt is not None and same_bits(got, want_alt)):
+        add("elementwise_signed_zero", "interior values differ from numpy applied to the operands' interior values in the sign of a zero "
+            "(1/x, arctan2, copysign of the result differ)")
     if any(r is o for o in operands):
         add("not_new", "result is one of the operands")
     # BCs: equal to the left-most variable operand's, distinct object
@@ -299,30 +327,40 @@ def _trees_part(ctx, res, first, depth):
     name1, fn1 = BIN[first]
     for kind1 in KINDS:
         a, b, na, nb, lead = operand(ctx, kind1, 0)
-        level = [("%s:%s" % (name1, kind1), fn1(a, b), np_apply(name1, fn1, na, nb), lead)]
+        w1 = np_apply(name1, fn1, na, nb)
+        level = [("%s:%s" % (name1, kind1), fn1(a, b), w1, lead, w1)]
         for dpt in range(2, depth + 1):
             nxt = []
-            for desc, node, nnode, lead_ in level:
+            for desc, node, nnode, lead_, nnode_native in level:
                 if not isinstance(node, pf.CellVariable):
                     continue
-                nn = np.asarray(nnode)
+                was_bool = np.asarray(nnode_native).dtype == bool
+                # two reference evaluations: intermediate results held as floats (what a CellVariable documents) and in
+                # numpy's native result type (what the 1-D periodic path keeps); they differ only in the sign of zeros
+                nn = np.asarray(nnode, dtype=float)
+                nn_nat = np.asarray(nnode_native)
                 for (name2, fn2), kind2 in itertools.product(BIN, ("vv", "vs", "sv", "va")):
-                    if name2 == "pow" and (nn.dtype == bool or np.any(np.asarray(nn, dtype=float) <= 0) or np.any(np.abs(np.asarray(nn, dtype=float)) > 64)):
+                    if name2 == "pow" and (was_bool or np.any(np.asarray(nn, dtype=float) <= 0) or np.any(np.abs(np.asarray(nn, dtype=float)) > 64)):
                         continue
                     if kind2 == "vv":
                         o = ctx.var(3)
                         l, r_, nl, nr, ld = node, o, nn, np.array(o.value), lead_
+                        al, ar = nn_nat, nr
                     elif kind2 == "vs":
                         l, r_, nl, nr, ld = node, 1.5, nn, 1.5, lead_
+                        al, ar = nn_nat, nr
                     elif kind2 == "sv":
                         l, r_, nl, nr, ld = 0.75, node, 0.75, nn, lead_
+                        al, ar = nl, nn_nat
                     else:
                         arr = ctx.arr(3)
                         l, r_, nl, nr, ld = node, arr, nn, arr, lead_
+                        al, ar = nn_nat, nr
                     what = "%s(%s):%s|%s" % (name2, kind2, desc, "")
                     try:
                         out = fn2(l, r_)
                         want = np_apply(name2, fn2, nl, nr)
+                        want_nat = np_apply(name2, fn2, al, ar)
                     except Exception as e:  # noqa: BLE001
                         k = "C14:tree_exception:%s:%s" % (name2, kind2)
                         if k not in seen:
@@ -330,9 +368,9 @@ def _trees_part(ctx, res, first, depth):
                             F.append({"key": k, "msg": "tree %s on %s raises %s: %s" % (what, ctx.gid, type(e).__name__, str(e)[:100]), "detail": {}})
                         continue
                     check_result(ctx, res, F, seen, "tree:%s(%s)|%s" % (name2, kind2, desc), out, want, ld,
-                                 [x for x in (l, r_) if isinstance(x, pf.CellVariable)])
+                                 [x for x in (l, r_) if isinstance(x, pf.CellVariable)], want_alt=want_nat)
                     if dpt < depth:
-                        nxt.append(("%s(%s)<-%s" % (name2, kind2, desc), out, want, ld))
+                        nxt.append(("%s(%s)<-%s" % (name2, kind2, desc), out, want, ld, want_nat))
             level = nxt
 
 
@@ -340,16 +378,21 @@ def _face_part(ctx, res):
     F, seen = res["findings"], set()
     m = ctx.mesh
 
-    def fv(i, signed=False):
+    def fv(i, signed=False, special=False):
         f = U.generic_face(m, tag=150 + i, signed=signed)
         for c in U.COMP[:ctx.d]:
-            setattr(f, c, getattr(f, c) / 8.0 + (0.0 if signed else 0.5))
+            arr = getattr(f, c) / 8.0 + (0.0 if signed else 0.5)
+            if special:     # values equal to the scalar operands, zeros of both signs, negatives
+                sp_ = [1.5, 0.0, -1.5, 0.75, -0.0, 1.0, -0.75, 2.0 ** -1074]
+                for k in range(0, arr.size, 2):
+                    arr.flat[k] = sp_[(k // 2 + i) % len(sp_)]
+            setattr(f, c, arr)
         return f
-    for (name, fn), kind in itertools.product(BIN, KINDS):
+    for (name, fn), kind, special in [(nf, kd, sp_) for nf, kd in itertools.product(BIN, KINDS) for sp_ in (False, True)]:
         if kind == "va":
             continue        # a single ndarray cannot match the differently shaped components
-        a = fv(0) if kind != "sv" else 1.5
-        b = fv(1) if kind in ("vv", "sv") else 0.75
+        a = fv(0, special=special) if kind != "sv" else 1.5
+        b = fv(1, special=special) if kind in ("vv", "sv") else 0.75
         ops_ = [x for x in (a, b) if isinstance(x, pf.FaceVariable)]
         before = [snap(o) for o in ops_]
         for o in ops_:
@@ -374,7 +417,7 @@ def _face_part(ctx, res):
             y = getattr(b, c) if isinstance(b, pf.FaceVariable) else b
             want = np_apply(name, fn, x, y)
             got = getattr(r, c)
-            if np.shape(got) != np.shape(want) or not np.array_equal(np.asarray(got, dtype=float), np.asarray(want, dtype=float), equal_nan=True):
+            if np.shape(got) != np.shape(want) or not same_bits(got, want):
                 ok = False
             for o in ops_:
                 if np.size(got) and np.shares_memory(np.asarray(got), np.asarray(getattr(o, c))):
